@@ -33,7 +33,10 @@ SPEC = dict(
                 "(Cmap14Iter / Charmap::variant_mappings = exactly the triples map_variant answers, each (code point, selector) once, default ranges expanded to "
                 "start..=start+additionalCount) for well-formed tables with disjoint default/non-default entries; the format-14 stream covers additionalCount 0/1/254/255 and "
                 "ranges ending at U+10FFFF, enumerated through Cmap14::iter and Charmap::variant_mappings; every call into the code under test runs under catch "
-                "(a panic is an oracle failure keyed panic:<file:line>:<msg> with its input)."),
+                "(a panic is an oracle failure keyed panic:<file:line>:<msg> with its input). Round 6: every skrifa Charmap observation is taken through both "
+                "constructors (Charmap::new and MappingIndex::new(..).charmap(..)), must agree, and the model is fed from the second; 450 hand-built encoding-record lists per run "
+                "(all platform/encoding kinds in arbitrary order, duplicates, formats 4/12/14/unsupported, symbol) are compared with the model's selection of the code-point and "
+                "variation subtables (map, mappings, has_map, is_symbol, has_variant_map, map_variant)."),
     level_note=("Trusted: Coq kernel; the hand-written model coq/C08/Model.v at the level of decoded arrays (its agreement with the Rust code is "
                 "checked by vm_compute on every run, not proved; the byte codec of the compiled table is C04's business and is exercised here only "
                 "through dump_table -> read); the harness generator. Theorems are conditional on from_mappings returning a table: it still panics for BMP mappings whose format-4 "
@@ -41,7 +44,7 @@ SPEC = dict(
     technique="Coq proof (induction over the segment computer / row builder, binary-search invariants, lia) over hand-written Gallina model + vm_compute correspondence with write-fonts/read-fonts/skrifa + exhaustive-BMP implementation oracle",
     modelled=["write-fonts/src/tables/cmap.rs: Cmap::from_mappings, CmapSubtable::create_format_4, create_format_12, Format4Segment::{len,cost,can_combine,should_combine,combine}, Format4SegmentComputer::{new,make_segment,next_possible_segment,compute}, Cmap4::compute_length",
               "read-fonts/src/tables/cmap.rs: Cmap::map_codepoint, Cmap4::{map_codepoint,lookup_glyph_id,code_range}, Cmap4Iter, Cmap12::{map_codepoint,lookup_glyph_id,group}, Cmap12Iter (+Cmap12IterLimits), Cmap14::map_variant (textbook binary search over well-formed tables)",
-              "skrifa/src/charmap.rs: MappingSelection::new (codepoint subtable choice), Charmap::{map,mappings}, CodepointSubtable::{map,map_impl}"],
+              "skrifa/src/charmap.rs: MappingSelection::new (codepoint and variant subtable choice), MappingIndex::{new,charmap} (by correspondence with the same model), Charmap::{map,mappings,map_variant,has_map,is_symbol,has_variant_map}, CodepointSubtable::{map,map_impl}"],
     not_covered=["a closed-form (segment-independent) description of fits4: fits4 is computed from the segments the segment computer chooses; only the sharp isolated-points limit (8188 fit, 8189 do not) is proved as an instance",
                  "Cmap12Iter with arbitrary limits on malformed group arrays: model + correspondence + oracle only",
                  "format-12 reader on malformed group arrays (overlap clamp, u32 wrap, limits): model + correspondence only; it has no arithmetic panic sites (wrapping/saturating ops)",
